@@ -130,6 +130,12 @@ def numeration(ctx, R):
                             raise Undecided("name update %s" % ntext(st))
                     else:
                         env[tgt] = _cg(st.value, env)
+                elif isinstance(st, ast.Assign) and isinstance(st.targets[0], ast.Tuple) and len(st.targets[0].elts) == 2 and all(isinstance(x, ast.Name) for x in st.targets[0].elts) and isinstance(st.value, ast.Call) and ntext(st.value.func) == "divmod" and len(st.value.args) == 2:
+                    a_, b_ = st.value.args
+                    qv = _cg(ast.BinOp(left=a_, op=ast.FloorDiv(), right=b_), env)
+                    rv = _cg(ast.BinOp(left=a_, op=ast.Mod(), right=b_), env)
+                    env[st.targets[0].elts[0].id] = qv
+                    env[st.targets[0].elts[1].id] = rv
                 elif isinstance(st, ast.AugAssign) and isinstance(st.target, ast.Name) and st.target.id != nvar:
                     fake = ast.BinOp(left=ast.Name(id=st.target.id, ctx=ast.Load()), op=st.op, right=st.value)
                     env[st.target.id] = _cg(fake, env)
